@@ -99,6 +99,10 @@ type Config struct {
 	TimerMode int
 	MaxSteps  int
 	Trace     bool
+	// IdleClock: virtual time only passes when no thread can run (threads are never "slow").
+	// Used by scenarios whose oracle is a progress statement, which cannot hold against a thread
+	// that is starved for arbitrarily long.
+	IdleClock bool
 }
 
 // Failure is a property violation detected by the scenario (or a deadlock / horizon hit).
@@ -316,7 +320,7 @@ func (sc *sched) run(body func()) {
 		// quiescence-aware operations (Quiesce) look at this
 		hasTimer := len(sc.timers) > 0
 		nThreadAlts := len(en)
-		if hasTimer {
+		if hasTimer && !(sc.cfg.IdleClock && nThreadAlts > 0) {
 			en = append(en, alt{nil, 0})
 		}
 		if len(en) == 0 {
